@@ -138,6 +138,8 @@ type c03Cfg struct {
 	// IdleMs: virtual time that passes between the last producer's return and the shutdown request (a flush timer that is
 	// due fires in between; Shutdown's final flush then meets a timer goroutine that may still be at work)
 	IdleMs int `json:"idle_before_shutdown_ms,omitempty"`
+	// NoQueue: the sending queue is disabled - Send runs the whole chain (retries included) in the caller's goroutine
+	NoQueue bool `json:"queue_disabled,omitempty"`
 }
 
 type c03Obs struct {
@@ -165,17 +167,27 @@ func c03Body(cf *c03Cfg, o *c03Obs) func() {
 	return func() {
 		*o = c03Obs{attempts: map[int]int{}, failed: map[int]bool{}, transient: map[int]int{}, finalOK: map[int]bool{}, acceptedBefore: map[int]bool{}, acceptedAll: map[int]bool{}}
 		inFlight := 0
+		enteredBefore := map[int]bool{} // ids whose Send was entered before shutdown was requested
 		first := map[int]time.Time{}
 		backend := func(bctx context.Context, r request.Request) error {
 			if vs.Killed() {
 				return nil
 			}
 			o.clk++
+			ids := append([]int(nil), r.(*c03Req).ids...)
 			if o.shutdownRet > 0 {
-				o.afterShutdown++
+				// without a queue the export runs in the caller's own Send: a call that ENTERED Send after shutdown had been
+				// requested is the harness's doing (receivers are stopped before exporters) and proves nothing; a request
+				// that was inside Send before (e.g. waiting in a retry back-off) must not be exported any more
+				late := cf.NoQueue
+				for _, id := range ids {
+					late = late && !enteredBefore[id]
+				}
+				if !late {
+					o.afterShutdown++
+				}
 			}
 			inFlight++
-			ids := append([]int(nil), r.(*c03Req).ids...)
 			for _, id := range ids {
 				o.attempts[id]++
 				if d, ok := bctx.Deadline(); ok && cf.Timeout {
@@ -241,7 +253,7 @@ func c03Body(cf *c03Cfg, o *c03Obs) func() {
 			}
 			return nil
 		}
-		qc := queuebatch.Config{Enabled: true, NumConsumers: cf.Consumers, QueueSize: 100, Sizer: request.SizerTypeItems, WaitForResult: cf.WFR}
+		qc := queuebatch.Config{Enabled: !cf.NoQueue, NumConsumers: cf.Consumers, QueueSize: 100, Sizer: request.SizerTypeItems, WaitForResult: cf.WFR}
 		store := &c03Store{m: map[string][]byte{}, closeFail: cf.CloseFails}
 		stID := component.MustNewID("st")
 		if cf.Persistent {
@@ -290,6 +302,9 @@ func c03Body(cf *c03Cfg, o *c03Obs) func() {
 			vs.GoNamed(fmt.Sprintf("producer%d", pi+1), func() {
 				defer wg.Done()
 				for _, ids := range reqs {
+					for _, id := range ids {
+						enteredBefore[id] = o.shutdownReq == 0
+					}
 					err := be.Send(pctx, &c03Req{append([]int(nil), ids...)})
 					o.clk++
 					if err == nil || (cf.WFR && !errors.Is(err, context.Canceled) && !errors.Is(err, queuebatch.ErrQueueIsFull)) {
@@ -321,6 +336,9 @@ func c03Body(cf *c03Cfg, o *c03Obs) func() {
 			o.clk++
 			o.shutdownRet = o.clk
 			o.inFlightAtRet = inFlight
+			if cf.NoQueue {
+				o.inFlightAtRet = 0 // an export in flight belongs to a caller that is still inside its own Send
+			}
 			for _, n := range vs.LiveThreads() {
 				if !strings.HasPrefix(n, "producer") && n != "main" && n != "shutdown" {
 					o.liveAtRet = append(o.liveAtRet, n)
@@ -481,6 +499,9 @@ func c03Configs(quick bool) []*c03Cfg {
 		if c.IdleMs > 0 {
 			c.Name += fmt.Sprintf(",idle=%dms", c.IdleMs)
 		}
+		if c.NoQueue {
+			c.Name += ",queue-disabled"
+		}
 		if c.FreeBackend {
 			c.Name += fmt.Sprintf(",free-backend,batch=%d..%d", c.BatchMin, c.BatchMax)
 		}
@@ -514,6 +535,10 @@ func c03Configs(quick bool) []*c03Cfg {
 	// shutdown; every backend answer pattern is enumerated
 	add(c03Cfg{Persistent: true, Batch: true, Retry: true, Consumers: 1, Producers: [][]int{{3}}, Concurrent: false, FreeBackend: true, BatchMin: 2, BatchMax: 2})
 	add(c03Cfg{Batch: true, Retry: true, Consumers: 1, Producers: [][]int{{3}}, Concurrent: false, FreeBackend: true, BatchMin: 2, BatchMax: 2})
+	// no sending queue: a caller that is in a retry back-off when Shutdown is requested - no export may begin afterwards
+	add(c03Cfg{NoQueue: true, Retry: true, Consumers: 1, Producers: [][]int{{1}}, Concurrent: true})
+	add(c03Cfg{NoQueue: true, Retry: true, Consumers: 1, Producers: [][]int{{1}, {1}}, Concurrent: true, FreeBackend: true})
+	add(c03Cfg{NoQueue: true, Retry: false, Consumers: 1, Producers: [][]int{{1}, {2}}, Concurrent: true})
 	// the flush timer fires (or is about to) when Shutdown is requested: exactly at its deadline, and shortly after it
 	add(c03Cfg{Batch: true, Consumers: 1, Producers: [][]int{{1}}, Concurrent: false, IdleMs: 1000})
 	add(c03Cfg{Batch: true, Retry: true, Consumers: 1, Producers: [][]int{{1}, {1}}, Concurrent: false, IdleMs: 1500, BatchMin: 3, BatchMax: 3})
